@@ -59,6 +59,9 @@ def oracle(case, v, info):
                     trips.append((a.name, r["k"], r["line"]))
         if r["phase"] in ("fail", "step"):
             prev_open = dict(r["cb_open"])
+        if r["phase"] == "step" and r.get("open_no_reason") and not case.get("devfail_expected"):
+            viols.append(("c05.open-without-reason", f"increment {r['k']}: breaker of {r['open_no_reason']} is open although its sectioning time has run out, "
+                          "the section of its own line has no failed line and no survival hold applies"))
         if r["phase"] == "step":
             # a callback-injected fault whose repair time is <= dt is repaired by update_fail_status before the
             # first control step ever sees it: nothing is left to isolate, the trip is not counted
@@ -93,6 +96,11 @@ def oracle_auto(case, v, info):
             for a in [n] + list(getattr(n, "child_network_list", [])):
                 if not r["cb_open"][a.name]:
                     viols.append(("c05.trip", f"increment {r['k']}: fault on in-service line {r['line']} but breaker of {a.name} is not open"))
+        if r["phase"] == "step" and r.get("open_no_reason") and not any(
+                type(ctl.comp(v.ps, nm)).__name__ in ("Sensor", "IntelligentSwitch") for fl in case["faults"].values() for nm, _ in fl):
+            # (C07.breaker_open_only_while_auto; devices failing by themselves raise false alarms that keep sections out: outside the model)
+            viols.append(("c05.open-without-reason", f"increment {r['k']}: breaker of {r['open_no_reason']} is open although its sectioning time has run out, "
+                          "the section of its own line has no failed line and no survival hold applies"))
     return viols
 
 
@@ -113,9 +121,47 @@ def gen(rng, n_manual, n_auto):
             c["faults"] = {"1": [["F0L0", "6"]], str(k2): [[f"F0L{other}", str(rng.choice([F(1), F(2)]))]]}
             c["n_inc"] = k2 + int((T + 8) / dt) + 8
         cases.append(c)
-    for _ in range(n_auto):
+    for j in range(n_auto):
         c = ctl.gen_scenario(rng, max_lines=5, ctrl="main")
         c["kind"] = "auto"
+        if j % 5 == 0:
+            # targeted: a microgrid line without sensor fails (the controller has to count it by inspection at every poll)
+            while not c["spec"].get("mg"):
+                c = ctl.gen_scenario(rng, max_lines=5, ctrl="main"); c["kind"] = "auto"
+            ln = f"ML{rng.randrange(c['spec']['mg'].get('n', 2))}"
+            c["spec"]["ctrl"]["nodev"] = [f"S{ln}"]
+            if F(c["spec"]["ctrl"]["T"]) == 0:
+                c["spec"]["ctrl"]["T"] = "1"
+            c["faults"] = {str(rng.randint(1, 4)): [[ln, str(rng.choice([F(3), F(4)]))]]}
+            cases.append(c)
+            continue
+        if j % 5 == 1:
+            # targeted: a line with disconnectors at both ends in the middle of a feeder (its one-line section hangs two levels
+            # below the section of the feeder head), fully instrumented; a fault on it
+            c["spec"]["feeders"] = [{"parent": [-1, 0, 1, 2] + ([3] if rng.random() < 0.5 else []), "sw": [rng.choice([0, 1]), 0, 3, 0] + [0], "cust": [1] * 5,
+                                     "load": ["1/50"] * 5, "cost": [1] * 5}]
+            fd = c["spec"]["feeders"][0]
+            for key in ("sw", "cust", "load", "cost"):
+                fd[key] = fd[key][:len(fd["parent"])]
+            c["spec"]["tie"] = None; c["spec"]["mg"] = None
+            c["faults"] = {str(rng.randint(1, 3)): [["F0L2", str(rng.choice([F(3), F(4)]))]]}
+            cases.append(c)
+            continue
+        if j % 5 == 2:
+            # targeted: a first fault on a line without sensor (sectioned by hand, the breaker stays open for the manual time),
+            # a second fault on another line while that time is running
+            if F(c["spec"]["ctrl"]["T"]) == 0:
+                c["spec"]["ctrl"]["T"] = "1"
+            T = F(c["spec"]["ctrl"]["T"]); dt = F(c["dt"])
+            ps = net.build(c["spec"])
+            names = [l.name for l in ps.lines if not l.is_backup and l.name.startswith("F0")]
+            if len(names) >= 2:
+                a, b = rng.sample(names, 2)
+                c["spec"]["ctrl"]["nodev"] = [f"S{a}"]
+                k1 = rng.randint(1, 3)
+                c["faults"] = {str(k1): [[a, str(rng.choice([F(3), F(4)]))]], str(k1 + rng.randint(1, max(1, math.ceil(T / dt)))): [[b, str(rng.choice([F(2), F(3)]))]]}
+                cases.append(c)
+                continue
         if rng.random() < 0.4:       # partial instrumentation: lines without sensor, plain disconnectors
             from . import c06
             c["spec"]["ctrl"]["nodev"] = c06.missing_devices(rng, c["spec"])
